@@ -250,7 +250,8 @@ CHECKS["C12"] = {
     "src": "C12.cpp",
     "level": "exploration",
     "rule": "tiny concurrent rounds on rcu_list (unique values; pushers front/back/emplace, erasers by id/first/all, traversals with read and "
-            "write handles that pause on elements) and single-threaded sequences compared with std::list after every step. Per traversal: only "
+            "write handles that pause on elements) and single-threaded sequences compared with std::list after every step (every fourth one with element constructors that insert "
+            "into the same recursive-mutex list, judged against the sequential results of the nested operations). Per traversal: only "
             "inserted values, no duplicates, every element that was in the list for the whole traversal (insert returned before, no erase "
             "started before its end - logical clock) is visited; globally the union of all observed pairwise orders (traversals, final contents, "
             "front/initial/back structure, per-thread and real-time push order) must be acyclic; final contents = inserted - erased. "
